@@ -394,6 +394,8 @@ fn session_after(setup: &Setup, prelude: Option<(&'static Prelude, &[Page<'stati
     (sess, pc)
 }
 
+static REFUTATIONS: std::sync::atomic::AtomicUsize = std::sync::atomic::AtomicUsize::new(0);
+
 /// Depth-first enumeration of every reply script whose first symbol is `first`; with a prelude, every conversation is
 /// held with a `Sign` object that has performed that earlier call.
 fn dfs(setup: &Setup, op: &Op, pages: &[Page<'static>], first: u16, poll_bound: usize, invariants_mode: bool, prelude: Option<&'static Prelude>, rep: &mut Report) -> bool {
@@ -411,6 +413,13 @@ fn dfs(setup: &Setup, op: &Op, pages: &[Page<'static>], first: u16, poll_bound: 
     let mut conversations = 0u64;
     let mut script = vec![first];
     loop {
+        // Once the run is refuted many times over, enumerating the rest only costs time: a controller that does not stop
+        // where it should makes every remaining reply tree larger (and the verdict is already "violation").
+        if REFUTATIONS.load(std::sync::atomic::Ordering::Relaxed) >= 40 {
+            rep.count("dfs_subtrees_skipped_after_refutation");
+            return false;
+        }
+        let violations_before = rep.violations.len();
         // C10 ends a conversation where it leaves the protocol (the divergence is the verdict); C11 must not lean on the
         // reference machine, so it lets the conversation run and relies on the conversation budget below
         let (mut sess, pc) = session_after(setup, prelude.map(|p| (p, prelude_pages.as_deref().unwrap())));
@@ -424,6 +433,9 @@ fn dfs(setup: &Setup, op: &Op, pages: &[Page<'static>], first: u16, poll_bound: 
         monitor(&c, setup.ty, pages.len(), invariants_mode, rep);
         if prelude.is_some() {
             rep.count("conversations_with_a_reused_sign_object");
+        }
+        if rep.violations.len() > violations_before {
+            REFUTATIONS.fetch_add(1, std::sync::atomic::Ordering::Relaxed);
         }
         conversations += 1;
         if conversations > CONVERSATION_BUDGET {
